@@ -13,7 +13,7 @@ LEVEL_TEXT = ("Static structural proof of necessary conditions: (R18.1) in creat
               "before any run; (R18.5) a backup becomes listed only past the two-entry test and both consistency "
               "raises. Byte identity, interruption at arbitrary I/O steps (the record write itself is not atomic) and "
               "idempotence of re-running are NOT decided.")
-LEVEL_EXTRA = 'Added after the seeded evaluation: (R18.2) the name tested by the same-name refusal is the name used by every write (no re-definition in between); (R18.4) the data tree is scanned (file list, task parsing) only after the restore. The same-name refusal also consults the file system; the task filter is not a substring test.'
+LEVEL_EXTRA = 'Added after the seeded evaluation: (R18.2) the name tested by the same-name refusal is the name used by every write (no re-definition in between); (R18.4) the data tree is scanned (file list, task parsing) only after the restore. The same-name refusal also consults the file system; the task filter is not a substring test. (R18.5) a backup key is the relative path joined unchanged.'
 
 COPY_NAMES = ("copy", "copy2", "copyfile", "copytree", "move")
 
@@ -298,6 +298,38 @@ def run(ctx):
         ctx.check(g is not None, "R18.5", chk.qualname, o.ast if o.kind != "with" else "open record", loc(chk, o.ast),
                   "the record is opened without the existence test that turns a half-created backup into the "
                   "documented error", desc="record existence test dominates reading it")
+
+    # ---------------- R18.5: a backup key is the file's own relative path (restore joins it back under the data root)
+    ctx.rule("R18.5", "get_file_key joins the path components unchanged")
+    from sa.dataflow import ReachingDefs as _RD18
+    gfk = prog.find_class("BackupManager").methods.get("get_file_key")
+    if gfk is None:
+        raise AnalysisError("anchor BackupManager.get_file_key vanished")
+    ctx.saw(gfk)
+    rd18 = _RD18(gfk)
+    ALLOWED18 = {"get_path_components", "basename", "join", "relpath", "realpath", "normpath", "split", "replace", "list", "dirname"}
+    n_key = 0
+    for r in walk_no_nested(gfk.node):
+        if not (isinstance(r, ast.Return) and r.value is not None):
+            continue
+        n_key += 1
+        seen, todo, foreign = set(), [(r.value, r)], []
+        while todo:
+            e, at = todo.pop()
+            for x in ast.walk(e):
+                if isinstance(x, ast.Call) and call_name(x) not in ALLOWED18:
+                    foreign.append(x)
+                if isinstance(x, ast.Name) and isinstance(x.ctx, ast.Load):
+                    for d in rd18.at(at, x.id) or []:
+                        if id(d) not in seen and d.value is not None:
+                            seen.add(id(d))
+                            todo.append((d.value, d.node))
+        ctx.check(not foreign, "R18.5", gfk.qualname, r, loc(gfk, r),
+                  "the key is no longer the file's own relative path (components pass through %s): restore_backup joins the key back "
+                  "under the data root, so a file whose name is changed by that step is restored to a different path and the original "
+                  "stays as it was" % ", ".join(sorted({call_name(x) or "?" for x in foreign})),
+                  desc="key = relative path components joined unchanged")
+    ctx.floor("R18.5", "key constructions in get_file_key", n_key, 1)
 
 
 def _negated(test):
